@@ -19,4 +19,6 @@ CAMPAIGNS = {
     'C16': props_session.c16,
     'C17': props_session.c17,
     'C18': props_session.c18,
+    'C19': props_session.c19,
+    'C20': props_session.c20,
 }
